@@ -297,6 +297,48 @@ def check_property(pid, tier, seed=0, replay_only=None):
                     a['status'] = 'sat'
                     violations.append((u, r, vc))
 
+    # bounded stand-ins: contracts on functions outside the verifier's reach (file system, argument parsing, whole programs) are
+    # evaluated at run time on the real code over the contract's table of concrete inputs.  Labelled bounded; never counted as
+    # obligations discharged.
+    bunits = pm.bounded_units(tier) if hasattr(pm, 'bounded_units') else []
+    bounded_stats = {'units': len(bunits), 'evaluations': 0, 'clauses_checked': 0, 'failed_evaluations': 0, 'targets': []}
+    if bunits:
+        from concurrent.futures import ThreadPoolExecutor
+        bitems = []
+        for u in bunits:
+            u.prop = pid
+            K0 = u.make()
+            bounded_stats['targets'].append(K0.target)
+            for v in K0.seeds():
+                bitems.append((u, v, K0.replay_env(v) if hasattr(K0, 'replay_env') else None))
+        nchunks = max(1, min(12, len(bitems)))
+        chunks = [bitems[i::nchunks] for i in range(nchunks)]
+        with ThreadPoolExecutor(max_workers=nchunks) as ex:
+            outs = list(ex.map(lambda ch: real_replay_batch(ch, timeout=opts.get('unit_timeout_s', 240) * 4), chunks))
+        for ch, rs in zip(chunks, outs):
+            for (u, v, e), rp in zip(ch, rs):
+                bounded_stats['evaluations'] += 1
+                if rp.get('harness_error') or rp.get('timeout'):
+                    problems.append((3, 'bounded check %s failed to run on %s: %s' % (u.name, json.dumps(v)[:200], json.dumps(rp)[-400:])))
+                    continue
+                if not rp.get('pre_ok', True):
+                    continue
+                bounded_stats['clauses_checked'] += len(rp.get('clauses') or {})
+                if rp.get('failed'):
+                    bounded_stats['failed_evaluations'] += 1
+                    K0 = u.make()
+                    for fcl in rp['failed']:
+                        oid = '%s/%s%s/%s' % (pid, getattr(K0, 'label', None) or verify.short(K0.target), (u.name[len(u.kcls.__name__):] if u.params else ''), fcl)
+                        known = verify.match_known_concrete(K0, oid, v) if hasattr(verify, 'match_known_concrete') else []
+                        known = [k for k in known if listed_known(pid, k['id'])]
+                        if known:
+                            for k in known:
+                                known_lines[(k['id'], oid)] = 'KNOWN-FINDING: property=%s %s [%s] obligation=%s' % (pid, k['what'], k['id'], oid)
+                            continue
+                        violations.append((u, {'target': K0.target, 'src_sha256': None},
+                                           {'oid': oid + '@' + json.dumps(v, sort_keys=True)[:80], 'status': 'sat', 'backend': 'bounded-runtime-contract', 's': 0.0, 'kind': 'bounded', 'values': v,
+                                            'meta': {'note': 'run-time contract check on a concrete input (bounded stand-in)'}}))
+
     # encoder cross-check: one concrete input per explored path, pyvc's concrete run vs CPython on the real code
     xitems = []
     for u, r in zip(units, ures):
@@ -353,6 +395,8 @@ def check_property(pid, tier, seed=0, replay_only=None):
         env = K.replay_env(vc['values']) if hasattr(K, 'replay_env') else None
         rp = real_replay(u, vc['values'], env)
         suffix = vc['oid'].split('/')[-1]
+        if vc.get('kind') == 'bounded' and '@' in suffix:
+            suffix = suffix.split('@')[0]
         fname = vc['oid'].replace('/', '__').replace(':', '_').replace('[', '(').replace(']', ')')
         fname = ''.join(ch if (ch.isascii() and (ch.isalnum() or ch in '._-()<>=,+ ')) else '_' for ch in fname)
         if len(fname) > 180:
@@ -436,6 +480,7 @@ def check_property(pid, tier, seed=0, replay_only=None):
             'semantics_crosscheck_inputs_compared_with_cpython': xcheck_n,
             'model_selfcheck_vs_cpython': sc,
             'bounded': meta.get('bounded', []),
+            'bounded_runtime_contract_checks_not_counted_as_proved': bounded_stats,
             'out_of_reach': meta.get('out_of_reach', []),
             'known_findings': sorted(set(known_lines.values())),
             'problems': ['%d: %s' % p for p in problems][:50],
